@@ -93,6 +93,11 @@ func main() {
 		depth = 4
 	}
 	rec("", depth)
+	// runs of several nullable operands between mandatory ones (one operand deeper over a reduced operand set)
+	ops = []string{"a", "b?", "c*", "d"}
+	rec("", depth+1)
+	ops = []string{"a", "b?", "(c|d?)"}
+	rec("", depth+2)
 	// repetition ranges that duplicate a sub-expression
 	bodies := []string{"a", "(ab)", "(a?)", "(a|b)", "(a*)", "(a?b)", "(ab?)", "."}
 	for _, b := range bodies {
